@@ -3,6 +3,7 @@ package load
 import (
 	"context"
 	"fmt"
+	"math"
 	"testing"
 
 	"github.com/ipfs/go-cid"
@@ -16,16 +17,17 @@ import (
 )
 
 type c10Prog struct {
-	World     sim.Prog   `json:"world"`
-	Replica   int        `json:"replica"`
-	Merge     bool       `json:"merge"`
-	Loader    int        `json:"loader"`
-	N         int        `json:"n"`                  // limit selector
-	Supplied  []int      `json:"supplied"`           // entries loader / hash loader: indices into the log's entries (mod)
-	HeadsOnly bool       `json:"headsOnly"`          // entries loader: supply the heads
-	Runs      []loadSpec `json:"runs"`               // >= 3 executions with different concurrency / completion order
-	HeadPerm  []int      `json:"headPerm,omitempty"` // order of the published head list (empty: the log\'s own order)
-	Shared    int        `json:"shared,omitempty"`   // 0: a fresh limit variable per load; 1-4: the caller keeps ONE limit variable for all its loads and first uses it for a load through loader #(Shared-1)
+	World       sim.Prog   `json:"world"`
+	Replica     int        `json:"replica"`
+	Merge       bool       `json:"merge"`
+	Loader      int        `json:"loader"`
+	N           int        `json:"n"`                     // limit selector
+	Supplied    []int      `json:"supplied"`              // entries loader / hash loader: indices into the log's entries (mod)
+	HeadsOnly   bool       `json:"headsOnly"`             // entries loader: supply the heads
+	Runs        []loadSpec `json:"runs"`                  // >= 3 executions with different concurrency / completion order
+	HeadPerm    []int      `json:"headPerm,omitempty"`    // order of the published head list (empty: the log\'s own order)
+	DupSupplied bool       `json:"dupSupplied,omitempty"` // entries loader: one supplied entry is named twice
+	Shared      int        `json:"shared,omitempty"`      // 0: a fresh limit variable per load; 1-4: the caller keeps ONE limit variable for all its loads and first uses it for a load through loader #(Shared-1)
 }
 
 func genC10(t *rapid.T) c10Prog {
@@ -40,6 +42,10 @@ func genC10(t *rapid.T) c10Prog {
 		p.HeadPerm = rapid.SliceOfN(rapid.IntRange(0, 7), 1, 6).Draw(t, "headPerm")
 	}
 	p.Shared = rapid.SampledFrom([]int{0, 0, 1, 2, 3, 4, 4}).Draw(t, "shared")
+	if rapid.IntRange(0, 5).Draw(t, "dupSupplied") == 0 {
+		// only meaningful for the entries loader with caller-chosen entries
+		p.DupSupplied, p.Loader, p.HeadsOnly = true, 2, false
+	}
 	for i := 0; i < 3; i++ {
 		s := genLoadSpec(t)
 		s.Loader = p.Loader
@@ -95,6 +101,7 @@ func runC10(tb ev.TB, p c10Prog) ev.Result {
 
 	// starting points the caller supplies, and what is reachable from the start
 	var supplied []string
+	dupSupplied := ""
 	var start []string
 	var hash cid.Cid
 	switch loader {
@@ -119,6 +126,9 @@ func runC10(tb ev.TB, p c10Prog) ev.Result {
 					supplied = append(supplied, h)
 				}
 			}
+			if p.DupSupplied && len(supplied) > 0 {
+				dupSupplied = supplied[p.N%len(supplied)]
+			}
 		}
 		start = supplied
 	}
@@ -126,10 +136,18 @@ func runC10(tb ev.TB, p c10Prog) ev.Result {
 	for _, h := range supplied {
 		suppliedEntries = append(suppliedEntries, entriesByHash[h])
 	}
+	if dupSupplied != "" {
+		// the caller names one entry twice (say, the concatenated heads of two replicas that share a head): k still
+		// counts distinct entries
+		suppliedEntries = append(suppliedEntries, entriesByHash[dupSupplied])
+	}
 	reach := w.Reg.Past(start, r.Model)
 	size := len(reach)
 	k := len(supplied)
-	cands := []int{0, 1, 2, 3, size / 3, size / 2, size - 2, size - 1, size, size + 1, size + 3, p.N % (size + 4), 1 + p.N%(size+1)/2}
+	if dupSupplied != "" {
+		k++ // the statement's k counts what the caller handed over
+	}
+	cands := []int{0, 1, 2, 3, size / 3, size / 2, size - 2, size - 1, size, size + 1, size + 3, p.N % (size + 4), 1 + p.N%(size+1)/2, p.N % (size + 4), 1000 * (size + 1), math.MaxInt32, math.MaxInt}
 	n := cands[p.N%len(cands)]
 	if n < 0 {
 		n = 0
